@@ -1,4 +1,5 @@
 """C14 Size literals and size formatting follow the documented unit tables (DESIGN.md 4, C14)."""
+import fractions
 import itertools
 import math
 import os
@@ -33,7 +34,9 @@ EXHAUSTIVE_NOTE = "all unit suffixes x all letter-case variants x 7 numbers x 7 
 MULT = {"k": 1024, "kib": 1024, "kb": 1000, "m": 1024 ** 2, "mib": 1024 ** 2, "mb": 1000 ** 2,
         "g": 1024 ** 3, "gib": 1024 ** 3, "gb": 1000 ** 3, "t": 1024 ** 4, "tib": 1024 ** 4, "tb": 1000 ** 4,
         "b": 1, "": 1}
-NUMS = ["1", "2", "3", "10", "1.5", "0.5", "2.25"]
+NUMS = ["1", "2", "3", "10", "1.5", "0.5", "2.25",
+        # decimal fractions that are not exact in binary floating point but give a whole number of bytes with a decimal unit
+        "2.01", "4.02", "8.03", "0.3", "1.001"]
 OPS = ["=", "!=", ">", ">=", "<", "<=", "eq"]
 
 DOC_TABLE = [
@@ -339,7 +342,8 @@ def check_mixed(out, c, base):
 
 def check_literal(out, c, base):
     mult = MULT[c["unit"]]
-    n = int(math.floor(float(c["num"]) * mult + 1e-9))
+    exact = fractions.Fraction(c["num"]) * mult        # the byte count the literal denotes, as an exact rational
+    n = int(exact) if exact.denominator == 1 else int(math.floor(exact))
     lit = c["num"] + c["spelled"]
     files = {"lo": n - 1, "eq": n, "hi": n + 1}
     for nm, sz in files.items():
